@@ -7,6 +7,8 @@
   with `crash_at=k` the k-th event calls os._exit(137) BEFORE the operation is performed
   (real process death: no finally blocks, no flush of user-space buffers).
 * events are `(kind, relative path, detail)`.
+* `on_event(kind, rel, detail)` is called BEFORE each operation (after the crash test): used to hold one
+  process at a chosen operation while another one runs (two-process schedules).
 """
 from __future__ import annotations
 
@@ -20,7 +22,7 @@ AUDITED = {
     "shutil.copyfile", "os.truncate", "os.rmdir", "os.link", "os.chmod", "shutil.rmtree", "shutil.move",
 }
 
-_S = {"installed": False, "root": None, "count": 0, "crash_at": None, "events": None, "sink": None}
+_S = {"installed": False, "root": None, "count": 0, "crash_at": None, "events": None, "sink": None, "on_event": None}
 _real_open = builtins.open
 _real_io_open = io.open
 
@@ -52,6 +54,9 @@ def _event(kind, path, detail):
         os._exit(137)
     if _S["events"] is not None:
         _S["events"].append([kind, rel, detail])
+    cb = _S["on_event"]
+    if cb is not None:
+        cb(kind, rel, detail)  # schedule control of two-process runs: may block until the other process has moved
 
 
 def _hook(ev, args):
@@ -132,7 +137,8 @@ def install():
     io.open = _io_open
 
 
-def arm(root: str, crash_at: int | None = None, record: bool = True):
+def arm(root: str, crash_at: int | None = None, record: bool = True, on_event=None):
+    _S["on_event"] = on_event
     _S["root"] = os.path.abspath(root)
     _S["count"] = 0
     _S["crash_at"] = crash_at
@@ -145,6 +151,7 @@ def disarm():
     _S["root"] = None
     _S["crash_at"] = None
     _S["events"] = None
+    _S["on_event"] = None
     return ev
 
 
